@@ -104,17 +104,31 @@ harnesses! {
         let r = rx.try_recv_timeout(d);
         assert!(matches!(r, Ok(x) if x == v), "C10: message present during the wait must be returned");
         core::mem::forget(r);
-        // a message that was completely sent before the last sender went away is still returned by
-        // the timed receive (the wait sees data AND a hang-up), and only then the disconnection
-        let w: u8 = kani::any();
-        tx.send(w).unwrap();
         drop(tx);
-        let r = rx.try_recv_timeout(d);
-        assert!(matches!(r, Ok(x) if x == w), "C10: timed receive missed a message queued before the last sender was dropped");
-        core::mem::forget(r);
         let r = rx.try_recv_timeout(d);
         assert!(is_disc(&r), "C10: disconnection during the wait must be returned");
         core::mem::forget(r);
+        drop(rx);
+        end_ledger();
+    }
+    // a message that was completely sent before the last sender went away is still returned by the
+    // timed receive (the wait sees data AND a hang-up at once), and only then the disconnection
+    #[unwind(8)] fn modes_timeout_queued_then_hangup() {
+        setup(64);
+        env::set_block_is_violation(true);
+        let (tx, rx) = platform::channel().unwrap();
+        let w: [u8; 2] = kani::any();
+        tx.send(&w[..], vec![], vec![]).unwrap();
+        drop(tx);
+        let d = Duration::from_millis(5);
+        match rx.try_recv_timeout(d) {
+            Ok((g, _, _)) => assert!(g.len() == 2 && g[0] == w[0] && g[1] == w[1], "C10: bytes"),
+            Err(_) => assert!(false, "C10: timed receive missed a message queued before the last sender was dropped"),
+        }
+        match rx.try_recv_timeout(d) {
+            Ok(_) => assert!(false, "C10: message delivered twice"),
+            Err(e) => assert!(e.channel_is_closed(), "C10: finished channel must read disconnected"),
+        }
         drop(rx);
         end_ledger();
     }
